@@ -136,7 +136,15 @@ def gen_cases(rng, tier):
         cases.append({"medium": "disk", "is_fd": is_fd, "verbose": True, "add": [{"arg": "z0.dat", "content": {"pat": "43", "len": 2500}}],
                       "sources": [{"arg": "a.dat", "content": {"pat": "41", "len": 3000}}, {"arg": "b.txt", "content": {"pat": "42", "len": 700}},
                                   {"arg": "big.bin", "content": {"rand": 9, "len": 315900}}, {"arg": "c.dat", "content": {"pat": "44", "len": 2500}}]})
-    return cases, {"random": n, "fixed": 2}
+    # verbose totals when the LAST side holds files: three --eos first, an overflow chain reaching side 3, files on every side
+    e = {"eos": "--eos"}
+    f = lambda a, n: {"arg": a, "content": {"pat": "45", "len": n}}
+    for is_fd in (True, False):
+        cases.append({"medium": "disk", "is_fd": is_fd, "verbose": True, "add": [f("z0.dat", 2500)], "sources": [f("a.dat", 3000), e, e, e, f("b.txt", 700), f("c.bin", 5000)]})
+        cases.append({"medium": "disk", "is_fd": is_fd, "verbose": True, "add": [e, e, e, f("z0.dat", 2500), f("z1.dat", 1)],
+                      "sources": [f("a.dat", 300000), f("b.dat", 300000), f("c.dat", 300000), f("d.dat", 300000), f("e.dat", 10)]})
+        cases.append({"medium": "disk", "is_fd": is_fd, "verbose": True, "add": [], "sources": [f("a.dat", 1), e, f("b.dat", 2041), e, f("c.dat", 0), e, f("d.dat", 4081), f("e.dat", 255)]})
+    return cases, {"random": n, "fixed": 8}
 
 
 def run_case(case, ctx):
